@@ -1,6 +1,7 @@
 package c03
 
 import (
+	"crypto/sha256"
 	"bytes"
 	"crypto/ed25519"
 	"crypto/x509"
@@ -36,6 +37,7 @@ var (
 
 type fixtures struct {
 	V, S, O, T    *enum.Key
+	keyless       []*enum.Key
 	iS, iO, iT    *forge.Ident
 	ckA, ckB, ckE *forge.CertKey
 	honestO       []byte
@@ -367,10 +369,32 @@ type seamAStats struct {
 	refSpecCrossCheck int
 }
 
+// keylessExpected: well-formed, non-empty peer IDs that do not embed a usable
+// Ed25519 key (no honest chain can satisfy them): the legacy sha2-256
+// multihash of the subject's marshalled key, an identity multihash carrying a
+// secp256k1 key record, and an identity multihash carrying a 31-byte Ed25519
+// key. Requiring such a peer must refuse every chain.
+func (f *fixtures) keylessExpected() []*enum.Key {
+	if f.keyless != nil {
+		return f.keyless
+	}
+	sPub := append([]byte{0x08, 0x01, 0x12, 0x20}, f.S.Std.Public().(ed25519.PublicKey)...)
+	sum := sha256.Sum256(sPub)
+	secp := append([]byte{0x08, 0x02, 0x12, 0x21, 0x02}, sum[:]...)
+	short := append([]byte{0x08, 0x01, 0x12, 0x1f}, sPub[4:35]...)
+	mk := func(name string, b []byte) *enum.Key { return &enum.Key{Name: name, ID: peer.ID(b)} }
+	f.keyless = []*enum.Key{
+		mk("keyless/sha256-multihash-of-subject-key", append([]byte{0x12, 0x20}, sum[:]...)),
+		mk("keyless/identity-multihash-secp256k1", append([]byte{0x00, byte(len(secp))}, secp...)),
+		mk("keyless/identity-multihash-ed25519-31-bytes", append([]byte{0x00, byte(len(short))}, short...)),
+	}
+	return f.keyless
+}
+
 // judge runs one chain through the real verifier for every expected peer and
 // compares with the reference. spec may be nil (then only RefVerify decides).
 func (f *fixtures) judge(run *evid.Run, acc *enum.Acc, st *seamAStats, group, name string, raw [][]byte, spec []int, honest bool) {
-	exps := []*enum.Key{nil, f.S, f.O, f.T}
+	exps := append([]*enum.Key{nil, f.S, f.O, f.T}, f.keylessExpected()...)
 	rank := 9
 	if spec != nil {
 		rank = 0
